@@ -42,7 +42,7 @@ theorem mem_aset {α : Type} {l : List (Nat × α)} {k : Nat} {v : α} {kv : Nat
 theorem aget_aset_self {α : Type} (l : List (Nat × α)) (k : Nat) (v : α) : aget (aset l k v) k = some v := by
   unfold aget
   induction l with
-  | nil => simp [aset, List.lookup]
+  | nil => simp [aset]
   | cons hd rest ih =>
     obtain ⟨k', v'⟩ := hd
     simp only [aset]
@@ -117,15 +117,20 @@ theorem PeriodR.upd_fields (pr : PeriodR) (s : Nat) :
 theorem RoundR.upd_periods_mem {pl : PlayerF} {rr : RoundR} {p : Nat} {kv : Nat × PeriodR}
     (h : kv ∈ (rr.upd pl p).periods) : kv ∈ rr.periods ∨ kv = (p, {}) := by
   unfold RoundR.upd at h
-  simp only [List.mem_filter] at h
-  obtain ⟨h, _⟩ := h
   split at h
-  · exact Or.inl h
-  · simp only [List.mem_append, List.mem_singleton] at h; exact h
+  · rename_i x hx
+    rcases mem_aset h with h' | h'
+    · exact Or.inl (List.mem_filter.mp h').1
+    · exact Or.inl (h' ▸ aget_mem hx)
+  · rcases mem_aset h with h' | h'
+    · have := (List.mem_filter.mp h').1
+      simp only [List.mem_append, List.mem_singleton] at this
+      exact this
+    · exact Or.inr h'
 
 theorem RoundR.upd_fields (pl : PlayerF) (rr : RoundR) (p : Nat) :
     (rr.upd pl p).store = rr.store ∧ (rr.upd pl p).freshest = rr.freshest ∧ (rr.upd pl p).ok = rr.ok := by
-  unfold RoundR.upd; simp
+  unfold RoundR.upd; split <;> simp
 
 theorem Root.upd_rounds_mem {P : Params} {pl : PlayerF} {root : Root} {r : Nat} {kv : Nat × RoundR}
     (h : kv ∈ (root.upd P pl r).rounds) : kv ∈ root.rounds ∨ kv = (r, {}) := by
@@ -136,13 +141,13 @@ theorem Root.upd_rounds_mem {P : Params} {pl : PlayerF} {root : Root} {r : Nat} 
   · exact Or.inl h
   · simp only [List.mem_append, List.mem_singleton] at h; exact h
 
-/-- an entry that exists before `update` is either kept unchanged or collected -/
+/-- the period router an `update` is made for is there afterwards, unchanged if it existed -/
 theorem RoundR.upd_aget_of_some {pl : PlayerF} {rr : RoundR} {p : Nat} {pr : PeriodR} (h : aget rr.periods p = some pr) :
-    aget (rr.upd pl p).periods p = if keepPeriod pl p then some pr else none := by
+    aget (rr.upd pl p).periods p = some pr := by
   unfold RoundR.upd
-  simp only [h]
-  rw [aget_filter_key rr.periods (keepPeriod pl) p, h]
+  simp only [h, aget_aset_self]
 
+/-- a round router that exists before `update` is either kept unchanged or collected -/
 theorem Root.upd_aget_of_some {P : Params} {pl : PlayerF} {root : Root} {r : Nat} {rr : RoundR} (h : aget root.rounds r = some rr) :
     aget (root.upd P pl r).rounds r = if keepRound P pl r then some rr else none := by
   unfold Root.upd
